@@ -44,6 +44,7 @@ func runC10(c *core.Ctx) core.Meta {
 
 	checkPhysicalLayout(c, pint, prov)
 	checkLevelScanReachesRoot(c)
+	checkScratchFieldsReset(c, "R10.21", "In the allocator: the second Remap re-homes the first one's pages too.", 0, pint)
 	checkRoundRobinCursors(c, pint)
 
 	// ---------------- R10.17 the buddy allocator frees blocks by their start ----------------
